@@ -147,13 +147,14 @@ REQUIRED = {
 for _c, _names in REQUIRED.items():
     PROPS[_c]["required_theorems"] = [f"C4E.Props.{_c}.{n}" for n in _names]
 
-# properties whose theorems live on the single-denomination core C4E.Distr1: the bridge verdicts
+# properties that also have theorems on the single-denomination core C4E.Distr1: the bridge verdicts
 # (C4E.Bridge, printed by the driver on every d.bb line) are obligations of these checks
 for _p in ("C01", "C03", "C04", "C10", "C14"):
     PROPS[_p]["bridge"] = True
     PROPS[_p].setdefault("trusted_extra", []).append(
-        "theorems are about the single-denomination core C4E.Distr1; its tie to the code is the executable bridge C4E.Bridge "
-        "(per-denomination comparison with the code-tied model C4E.Distributor on every generated block) plus the proved "
-        "implication Params.Validate => hypotheses (cfgHyps_of_paramsValid); no all-inputs projection theorem")
+        "since session 5 the whole-block theorems (faithful_block_books, distributor_block_completes, ...) are about the code-tied "
+        "multi-denomination model C4E.Distributor itself, under explicit hypotheses about the module-account table (EnvOk, BurnerOk) "
+        "and bech32 (Bech32Facts); the older theorems about the single-denomination core C4E.Distr1 remain, tied to the code-tied "
+        "model by the executable bridge C4E.Bridge (per-denomination comparison on every generated block) as an independent cross-check")
     if "C4E.Bridge" not in PROPS[_p]["modules"]:
         PROPS[_p]["modules"].append("C4E.Bridge")
